@@ -133,7 +133,8 @@ class Nist(Cont):
 class Voc(Cont):
     """Creative Voice: type 1 block (PCM_U8 mono), type 8 + type 1 (PCM_U8 stereo), type 9 (PCM_16, u-law, A-law), terminator byte"""
     name, major, driver = "voc", 0x08, "small3"
-    rates = [1, 3906, 3907, 3922, 8000, 11025, 22050, 44100, 62500, 65536, 333334, 1000000, 1000001, 128000000, 2 ** 31 - 1]
+    rates = [1, 1953, 1954, 3906, 3907, 3921, 3922, 8000, 11025, 22050, 44100, 62500, 65536, 333333, 333334, 500000, 500001, 1000000, 1000001,
+             64000000, 64000001, 128000000, 128000001, 2 ** 31 - 1]      # around the breakpoints of the 8-bit and the 16-bit divisor
     lengths = [0, 1, 2, 3, 5, 8, 4097]
     # KF-VOC-MONO-G711 / KF-VOC-UPDATE are repaired: no class is waived (the terminator is never counted, update images re-open exactly)
 
